@@ -374,6 +374,19 @@ func JudgeSubprotocol(requested []string, values []string) Verdict {
 		return Valid
 	}
 	if len(toks) > 1 {
+		// a list: every entry must at least be one the client asked for; whether a
+		// list of requested names is acceptable is left open
+		for _, t := range toks {
+			ok := false
+			for _, r := range requested {
+				if strings.EqualFold(r, t) {
+					ok = true
+				}
+			}
+			if !ok {
+				return Invalid
+			}
+		}
 		return Unconstrained
 	}
 	for _, r := range requested {
